@@ -74,6 +74,7 @@ static SliceItemPtr sliceitem() {
     std::vector<int64_t> shape({r, c}), strides({c, 1});
     return std::make_shared<SliceArray64>(idx, shape, strides, false);
   }
+  if (k == "asslice") { ContentPtr a = pop(); return a.get()->asslice(); }     // an array (top of the stack) used as a slice item
   if (k == "jagged") { int64_t n = nint(); Index64 off = rindex<int64_t>(n); SliceItemPtr c = sliceitem(); return std::make_shared<SliceJagged64>(off, c); }
   if (k == "missing") { int64_t n = nint(); Index64 idx = rindex<int64_t>(n); Index8 m(n); for (int64_t i = 0; i < n; i++) m.data()[i] = idx.data()[i] < 0 ? 1 : 0;
     SliceItemPtr c = sliceitem(); return std::make_shared<SliceMissing64>(idx, m, c); }
